@@ -5,7 +5,7 @@ from ..harness import scn, gen, obs as O, pyeval
 from . import base_scn
 
 pid = 'C02'
-gen_modules = ['tr_state', 'tr_validators', 'tr_has_patcher', 'tr_contracts', 'tr_decorators', 'tr_pin_contracts', 'tr_rest_validators', 'tr_rest_patcher', 'tr_rest_state', 'tr_rest_contractsconst']
+gen_modules = ['tr_state', 'tr_validators', 'tr_has_patcher', 'tr_contracts', 'tr_decorators', 'tr_pin_contracts', 'tr_rest_validators', 'tr_rest_patcher', 'tr_rest_state', 'tr_rest_contractsconst', 'tr_pin_inherit']
 model_targets = ['Sem/Scenario.v']
 hand_modelled = ['coq/Py/Sig.v', 'coq/Sem/Model.v: Validator.init mode selection, calling a raw validator']
 explanation = ('Theorems about the post-validation block of the generated wrappers (every registry, validators, result value); '
@@ -80,8 +80,10 @@ def judge(f, args, kws, value):
     if any(n == 'result' for n, _ in kws):
         tag = 'keyword_named_result'
     posonly = {p[0] for p in f['sig'] if p[1] == 'PosOnly'}
-    if any(n in posonly for n, _ in kws) and any(p[1] == 'VarKw' for p in f['sig']) and any([p[0] for p in v['sig']] == ['_'] for v in ensures):
-        tag = tag or 'posonly_name_as_keyword'      # a valid call that inspect.Signature.bind rejects: the `_`-form ensure raises TypeError (C01-F2 seen from here)
+    if any(n in posonly for n, _ in kws) and any(p[1] == 'VarKw' for p in f['sig']) and ensures:
+        # a valid call that inspect.Signature.bind rejects: a `_`-form ensure raises TypeError, and so does the construction of the
+        # violation error of an explicit one (C01-F2 seen from here)
+        tag = tag or 'posonly_name_as_keyword'
     for v in posts:
         r = pyeval.verdict(v, None, [], [], args_override=[vj]) if [p[0] for p in v['sig']] != ['_'] else \
             pyeval.verdict(v, None, [], [['result', vj]])
@@ -170,6 +172,73 @@ def features(sc, obs):
 
 
 _me = sys.modules[__name__]
-def run(ctx, fr, model_available=True): return base_scn.run(_me, ctx, fr, model_available)
+INHERIT_SRC = r"""
+import deal, asyncio, random
+__name__ = "c02_inherit_probe"
+
+def probe(seed):
+    # post / ensure contracts that reach a method through deal.inherit (on the method or on the class) judge its results like its own
+    rnd = random.Random(seed)
+    bad = []
+    for _ in range(40):
+        lim = rnd.randint(1, 8)
+        kind = rnd.choice(["sync", "async", "gen"])
+        how = rnd.choice(["method", "class"])
+        base_kind = rnd.choice(["post", "ensure", "both"])
+        def deco(fn):
+            if base_kind in ("ensure", "both"): fn = deal.ensure(lambda _: _.result < lim)(fn)
+            if base_kind in ("post", "both"): fn = deal.post(lambda r: r != lim + 100)(fn)
+            return fn
+        if kind == "sync":
+            class Base:
+                @deco
+                def m(self, x): return 0
+            def m(self, x): return x
+        elif kind == "async":
+            class Base:
+                @deco
+                async def m(self, x): return 0
+            async def m(self, x): return x
+        else:
+            class Base:
+                @deco
+                def m(self, x): yield 0
+            def m(self, x):
+                yield 0
+                yield x
+                yield -1
+        Child = type("Child", (Base,), {"m": deal.inherit(m) if how == "method" else m})
+        if how == "class": Child = deal.inherit(Child)
+        for x in (lim - 1, lim, lim + 100, lim + 3):
+            rejected = (base_kind in ("ensure", "both") and not x < lim) or (base_kind in ("post", "both") and x == lim + 100)
+            delivered, err = [], None
+            try:
+                if kind == "sync": delivered.append(Child().m(x))
+                elif kind == "async": delivered.append(asyncio.run(Child().m(x)))
+                else:
+                    for v in Child().m(x): delivered.append(v)
+            except deal.PostContractError: err = "PostContractError"
+            except BaseException as e: err = type(e).__name__
+            got_x = x in delivered
+            after = kind == "gen" and -1 in delivered
+            if rejected and (got_x or after or err != "PostContractError"):
+                bad.append([kind, how, base_kind, lim, x, delivered, err])
+            if not rejected and (not got_x or err is not None):
+                bad.append([kind, how, base_kind, lim, x, delivered, err])
+    return bad
+"""
+
+
+def run(ctx, fr, model_available=True):
+    base_scn.run(_me, ctx, fr, model_available)
+    from ..harness import impl
+    r = impl.run_impl('pyexec.py', {'src': INHERIT_SRC, 'calls': [['probe', [ctx.seed]]]})[0]
+    fr.evaluations += 160; fr.add_nontrivial({'inherit_probe': ctx.seed})
+    fr.samples.append({'family': 'inherited post / ensure probe', 'deviations': r})
+    if isinstance(r, dict):
+        fr.errors.append('C02 inherit probe failed: ' + str(r)[:500])
+    elif r:
+        fr.violations.append({'scenario': {'family': 'inherited-post-ensure', 'seed': ctx.seed}, 'impl': r[:5], 'signature': None,
+                              'what': f'a post / ensure contract inherited through deal.inherit does not judge the result: [kind, how, contracts, limit, x, delivered, error] = {r[0] if isinstance(r, list) else r}'})
 def search(ctx, fr, model_available=True): return base_scn.search(_me, ctx, fr, model_available)
 classify = base_scn.classify
